@@ -286,6 +286,34 @@ theorem root_only_allocation_breaks (nm : Name) (fc p : Scope) (ps : List Scope)
     (h0 : fc.vars.cnt nm = 0) : ¬ Inv { chain := allocRootOnly nm (fc :: p :: ps), pkgNames := pk ++ [nm] } :=
   root_only_breaks nm fc p ps pk h0
 
+/-! ## Struct-constructor parameters (round 5)
+
+  The constructor of a struct type is `function(f1_, f2_, …) { if (arguments.length === 0) { this.f1 = <zero value>; … } … }`;
+  the zero values refer to package-level variables (the type variables `F`, `X`, `ID`, … under minification). The
+  parameters are the only names of that function scope that are not handed out by `newVariable`, so `names_distinct`
+  does not speak about them; what keeps them apart from every package-level name is the `_` suffix. -/
+
+/-- a constructor parameter is never one of the generated short names (they consist of letters only) -/
+theorem ctorParam_ne_shortName (field : Name) (pk : Bool) (i : Nat) : ctorParam field ≠ shortName pk i := by
+  intro h
+  have hm : (95 : Nat) ∈ shortName pk i := by rw [← h]; simp [ctorParam]
+  have := shortName_class pk i 95 hm
+  cases pk <;> simp at this
+
+/-- `ctor_params_disjoint_from_pkg_names`: in every history, with minification on, no struct-constructor parameter
+    (whatever the field is called — `F`, `X`, `ID`, …) equals a package-level name, so a constructor never hides a
+    package-level variable its zero-value branch reads. -/
+theorem ctor_params_disjoint_from_pkg_names (ops : List Op) (st : NState) (h : runOps true initState ops = some st)
+    (field : Name) : ctorParam field ∉ st.pkgNames := by
+  intro hm
+  have hu := (names_distinct ops st h).2.2.1 _ hm 95 (by simp [ctorParam])
+  omega
+
+/-- the unsuffixed variant is wrong: the field name `F` IS the sixth package-level short name -/
+theorem unsuffixed_ctor_param_counterexample : ctorParamUnsuffixed [70] = shortName true 5 := by
+  unfold ctorParamUnsuffixed shortName
+  rw [shortChars.eq_def]; simp
+
 /-- Not claimed: the corresponding statement with minification off (`name`, `name$1`, …) needs a side condition on the
     requested names (no Go identifier encodes to another one followed by `$<digits>`); it belongs to C01. -/
 def names_distinct_plain : Prop :=
